@@ -88,7 +88,9 @@ func runC33(t *testing.T, ch *sim.Choices, tier string) (o Outcome) {
 		o.fail("interp-error", normKey(spec.Name, "load"), itp.InterpErr+"\n"+itp.Output)
 		return
 	}
-	if mon.overflow {
+	if mon.overflow && mon.viol == "" {
+		// a run that creates more runtime records / frames than the tables hold without breaking
+		// any rule is a harness limit; with a recorded violation the violation is what counts
 		panic(sim.HarnessFault{Msg: "ownership monitor tables overflowed"})
 	}
 	nproto := 0
